@@ -1024,6 +1024,24 @@ fn c17_hidden_state_probe(rep: &mut Report, cube: &Cube) {
         dk_enc(objs[o].map_keycode(cube.keys[ki], &mods_from_bits(m), MODES[mode]))
     };
     let total_inputs = (20 * per_obj) as u32;
+    // counters in static memory behind the wrapper: driven across their wrap-arounds under the differential
+    {
+        let mut n = 0u32;
+        let mut step = || -> Option<(String, String)> {
+            n = n.wrapping_add(1);
+            let input = n.wrapping_mul(2_654_435_761) % total_inputs;
+            let (o, ki, mode, m) = decode(input);
+            let want = cube.get(o / 2, 0, ki, mode, m);
+            match guarded(|| call(input)) {
+                Ok(got) if got != want => Some((
+                    format!("C17|static-counter-wrap|{}|form={}|key={:?}|bare={}|wrapped={}", layout_name(o / 2), FORM_NAMES[1 + o % 2], cube.keys[ki], cube.show(want), cube.show(got)),
+                    format!("AnyLayout::{} used {} gives {} for {:?} with {} (mode {}); the wrapped layout itself gives {}", layout_name(o / 2), if o % 2 == 0 { "by value" } else { "by reference" }, cube.show(got), cube.keys[ki], mods_str(m), mode_str(MODES[mode]), cube.show(want)),
+                )),
+                _ => None, // a panic is C08's matter
+            }
+        };
+        crate::hidden::counter_wraps(rep, "AnyLayout::map_keycode", &mut step, 1000);
+    }
     let r = guarded(|| {
         // warm-up (lazy initialisation inside std or the crate is not what is looked for)
         for s in 0..64u32 {
